@@ -133,7 +133,10 @@ fn sorted_tree_items(
             let value = value
                 .extract::<(u32, Vec<u8>)>()
                 .map_err(|e| PyTypeError::new_err((format!("invalid type: {}", e),)))?;
-            Ok((name.extract::<Vec<u8>>().unwrap(), value.0, value.1))
+            let name = name
+                .extract::<Vec<u8>>()
+                .map_err(|e| PyTypeError::new_err((format!("invalid name type: {}", e),)))?;
+            Ok((name, value.0, value.1))
         })
         .collect::<PyResult<Vec<(Vec<u8>, u32, Vec<u8>)>>>()?;
     if name_order {
